@@ -23,4 +23,43 @@ def runGhash (fuel : Nat) (s : State) : Except String (List Nat) := do
   | some b => pure b
   | none => .error "no region tag"
 
+/-! ### the fused routines -/
+
+/-- the argument regions of `sealAsm` / `openAsm`, in this order after the read-only symbols: round keys, destination,
+    nonce, input (plaintext / ciphertext ‖ tag), additional data, the 32-byte scratch buffer `temp` -/
+def gcmRegions (inName : String) (inW : Bool) (rk dst nonce inp aad tmp : List Nat) : List Region :=
+  [⟨"rk", wordsMem rk, false⟩, ⟨"dst", dst, true⟩, ⟨"nonce", nonce, false⟩, ⟨inName, inp, inW⟩,
+   ⟨"aData", aad, false⟩, ⟨"tmp", tmp, true⟩]
+
+/-- entry state of `sealAsm(roundKeys *uint32, tagSize int, dst *byte, nonce []byte, plaintext []byte,
+    additionalData []byte, temp *byte)`: `rk` = the 32 round keys as numbers; `dst`, `tmp` = the old contents of the
+    destination and of the scratch buffer; `g`, `v`, `k` = whatever the registers hold at entry -/
+def sealState (g v k rk : List Nat) (tagSize : Nat) (dst nonce pt aad tmp : List Nat) : State :=
+  mkState g v k symbols (gcmRegions "plaintext" false rk dst nonce pt aad tmp)
+    [("rk", arg 0), ("tagSize", tagSize), ("dst", arg 1), ("nonce", arg 2), ("nonceLen", nonce.length),
+     ("nonceCap", nonce.length), ("plaintext", arg 3), ("plainLen", pt.length), ("aData", arg 4), ("aLen", aad.length),
+     ("tmp", arg 5)]
+
+/-- entry state of `openAsm(roundKeys, tagSize, dst, nonce, ciphertext []byte, additionalData, temp) int`:
+    `ct` = ciphertext ‖ tag; `ret0` = the old contents of the result slot -/
+def openState (g v k rk : List Nat) (tagSize : Nat) (dst nonce ct aad tmp : List Nat) (ret0 : Nat) : State :=
+  mkState g v k symbols (gcmRegions "cipher" false rk dst nonce ct aad tmp)
+    [("rk", arg 0), ("tagSize", tagSize), ("dst", arg 1), ("nonce", arg 2), ("nonceLen", nonce.length),
+     ("nonceCap", nonce.length), ("cipher", arg 3), ("cipherLen", ct.length), ("aData", arg 4), ("aLen", aad.length),
+     ("tmp", arg 5), ("ret1", ret0)]
+
+/-- the destination buffer after running the listing of `sealAsm` -/
+def runSeal (fuel : Nat) (s : State) : Except String (List Nat) := do
+  let s' ← run Gen.ListAmd64Gcm.sealAsm fuel s
+  match regionBytes s' "dst" with
+  | some b => pure b
+  | none => .error "no region dst"
+
+/-- the result slot and the destination buffer after running the listing of `openAsm` -/
+def runOpen (fuel : Nat) (s : State) : Except String (Nat × List Nat) := do
+  let s' ← run Gen.ListAmd64Gcm.openAsm fuel s
+  match lookup s'.frame "ret1", regionBytes s' "dst" with
+  | some r, some b => pure (r, b)
+  | _, _ => .error "no result slot / no region dst"
+
 end SMGo.Model.ISAVal
